@@ -86,28 +86,62 @@ def _inlinable(prog, f, call, stack):
         return None
     if not h.name.startswith('_'):
         return None
-    body = _doc_stripped(h.node.body)
+    body = _doc_stripped(_unrolled(h).body)
     if not body or len(body) > MAX_STMTS:
         return None
-    for x in ast.walk(h.node):
+    root = _unrolled(h)
+    for x in ast.walk(root):
         if isinstance(x, (ast.Yield, ast.YieldFrom, ast.Global, ast.Nonlocal, ast.Try, ast.With, ast.For, ast.While,
                           ast.ListComp, ast.DictComp, ast.SetComp, ast.GeneratorExp)):
             return None      # only straight-line glue is inlined: loops are algorithms with their own rules
-        if isinstance(x, (ast.FunctionDef, ast.Lambda)) and x is not h.node:
+        if isinstance(x, ast.FunctionDef) and x is not root:
             return None
+        if isinstance(x, ast.Lambda):
+            # a lambda is carried along when its own parameters cannot be confused with the helper's names
+            own = {a.arg for a in x.args.args + x.args.kwonlyargs + x.args.posonlyargs} | \
+                  ({x.args.vararg.arg} if x.args.vararg else set()) | ({x.args.kwarg.arg} if x.args.kwarg else set())
+            if own & (set(h.params) | set(h.kwonly) | _assigned(h.node.body)):
+                return None
     for d in h.node.decorator_list:
         if h.jit is None:
             return None
     return h
 
 
+class _Unroll(ast.NodeTransformer):
+    """`a, b = (E(v) for v in (p, q))` (also with [..] brackets) -> `a, b = (E(p), E(q))`: a fixed-length unpacking of a
+    comprehension over a literal tuple is two plain assignments"""
+    def visit_Assign(self, n):
+        self.generic_visit(n)
+        v = n.value
+        if len(n.targets) == 1 and isinstance(n.targets[0], (ast.Tuple, ast.List)) and \
+                isinstance(v, (ast.GeneratorExp, ast.ListComp)) and len(v.generators) == 1:
+            g = v.generators[0]
+            if isinstance(g.target, ast.Name) and isinstance(g.iter, (ast.Tuple, ast.List)) and not g.ifs and \
+                    len(g.iter.elts) == len(n.targets[0].elts) and not g.is_async:
+                elts = [_Subst({g.target.id: e}).visit(copy.deepcopy(v.elt)) for e in g.iter.elts]
+                new = ast.Assign(targets=n.targets, value=ast.Tuple(elts=elts, ctx=ast.Load()))
+                return ast.fix_missing_locations(ast.copy_location(new, n))
+        return n
+
+
+_UNROLLED = {}
+
+
+def _unrolled(h):
+    """the helper's function node with fixed-length comprehension unpackings written out"""
+    if id(h) not in _UNROLLED:
+        _UNROLLED[id(h)] = _Unroll().visit(copy.deepcopy(h.node))
+    return _UNROLLED[id(h)]
+
+
 def _expr_helper(h):
-    body = _doc_stripped(h.node.body)
+    body = _doc_stripped(_unrolled(h).body)
     return body[0].value if len(body) == 1 and isinstance(body[0], ast.Return) and body[0].value is not None else None
 
 
 def _stmt_helper(h):
-    body = _doc_stripped(h.node.body)
+    body = _doc_stripped(_unrolled(h).body)
     rets = [x for s in body for x in ast.walk(s) if isinstance(x, ast.Return)]
     if not rets:
         return body, None
